@@ -562,6 +562,16 @@ struct Dumper
         }
         if (auto* x = dyn_cast<LambdaExpr>(e)) {
             J.attribute("k", "lambda");
+            // parameter names of the call operator (references inside the body carry dk=param and the name; the
+            // list tells a lambda parameter from a captured parameter of the enclosing function)
+            J.attributeArray("params", [&] {
+                if (const CXXMethodDecl* op = x->getCallOperator())
+                    for (const ParmVarDecl* p : op->parameters())
+                        J.object([&] {
+                            J.attribute("name", p->getNameAsString());
+                            J.attribute("t", ty(p->getType()));
+                        });
+            });
             J.attributeBegin("body");
             stmt(x->getBody());
             J.attributeEnd();
